@@ -39,7 +39,7 @@ func plans(seed uint64) []univ.SeedPlan {
 	return []univ.SeedPlan{
 		{Seed: seed, MaxList: 3},
 		{Seed: seed + 1, ErrPermille: 60, NullPermille: 60, DirPermille: 80, MaxList: 3},
-		{Seed: seed + 2, ErrPermille: 250, NullPermille: 250, DirPermille: 300, MaxList: 2},
+		{Seed: seed + 2, ErrPermille: 200, ListPermille: 80, NullPermille: 250, DirPermille: 300, MaxList: 2},
 		{Seed: seed + 3, ErrPermille: 30, NullPermille: 400, MaxList: 4},
 		{Seed: seed + 4, ErrPermille: 500, NullPermille: 0, DirPermille: 0, MaxList: 3},
 	}
